@@ -1,6 +1,6 @@
 (* C15 correspondence: scenarios run on the real bootstrapContext over a decorated rosmar cluster connection
    (harness/rest/verif_c15_test.go) are replayed on the model. *)
-From SG Require Export Base.Prelude C15.ConfigProto C15.ConfigApply C15.ProtoRace.
+From SG Require Export Base.Prelude C15.ConfigProto C15.ConfigApply C15.ProtoRace C15.ProtoGen.
 Open Scope N_scope.
 
 Fixpoint insert_sorted (x : N) (l : list N) : list N :=
@@ -66,7 +66,10 @@ Inductive case :=
 | CApply (before loaded : list (N * acfg)) (still : list N) (after : list (N * acfg))
 (* a racing scenario: does the store the real code ended in satisfy version_linkage?  It must whenever the schedule
    satisfies the conditions of the racing theorems (ProtoRace.v) *)
-| CHyp (ops : list opk) (evs : list N) (linked_ok : bool).
+| CHyp (ops : list opk) (evs : list N) (linked_ok : bool)
+(* a scenario started from a store holding databases at chosen versions (ProtoGen.preset_store; stream "gen": every
+   generation 1..12, 98..101, ... of the version id) *)
+| CRunFrom (pre : list preset) (ops : list opk) (evs : list N) (results : list (option res)) (fin : final).
 
 (* THE switch between the two versions of DeleteConfig's finalize: true = the tree with the repair cd27b43 (only the
    entry marked deleted is removed), false = the code before it (ConfigProto.do_step_old: removeDatabase on whatever
@@ -75,14 +78,19 @@ Definition delete_finalize_repaired : bool := true.
 Definition model_run (ops : list opk) (evs : list event) : world :=
   if delete_finalize_repaired then run ops evs else run_old ops evs.
 
+Definition model_run_from (pre : list preset) (ops : list opk) (evs : list event) : world :=
+  fold_left (if delete_finalize_repaired then step else step_old) evs (init_world (preset_store pre) ops).
+
+Definition world_matches (w : world) (results : list (option res)) (fin : final) : bool :=
+  list_eqb (option_eqb res_eqb) (map result_of (w_nodes w)) results
+  && Bool.eqb (match s_reg (w_st w) with Some _ => true | None => false end) (f_reg_exists fin)
+  && list_eqb (pair_eqb rentry_eqb) (match s_reg (w_st w) with Some (_, R) => R | None => [] end) (sort_by_key (f_reg fin))
+  && list_eqb (pair_eqb config_eqb) (map (fun dc => (fst dc, snd (snd dc))) (s_cfg (w_st w))) (sort_by_key (f_cfgs fin)).
+
 Definition check (c : case) : bool :=
   match c with
-  | CRun ops evs results fin =>
-      let w := model_run ops (map ev evs) in
-      list_eqb (option_eqb res_eqb) (map result_of (w_nodes w)) results
-      && Bool.eqb (match s_reg (w_st w) with Some _ => true | None => false end) (f_reg_exists fin)
-      && list_eqb (pair_eqb rentry_eqb) (match s_reg (w_st w) with Some (_, R) => R | None => [] end) (sort_by_key (f_reg fin))
-      && list_eqb (pair_eqb config_eqb) (map (fun dc => (fst dc, snd (snd dc))) (s_cfg (w_st w))) (sort_by_key (f_cfgs fin))
+  | CRun ops evs results fin => world_matches (model_run ops (map ev evs)) results fin
+  | CRunFrom pre ops evs results fin => world_matches (model_run_from pre ops (map ev evs)) results fin
   | CApply before loaded still after =>
       existsb (fun p => list_eqb (pair_eqb acfg_eqb) (fetch_and_load (sort_by_key before) p still) (sort_by_key after))
               (perms loaded)
